@@ -30,7 +30,7 @@ META = {
     'components_stub': ['S3 bucket', 'service and environment'],
     'budgets': {'quick': {'seconds': 25}, 'thorough': {'seconds': 360}},
     'required_probes': {'thorough': ['mutated_get_data', 'mutated_item_access', 'mutated_metadata', 'mutated_recorded_output', 'service_mutated_value',
-                                     'copy_on_interception', 'mutated_playback_output']},
+                                     'copy_on_interception', 'mutated_playback_output', 'exception_with_mutable_payload']},
 }
 
 
@@ -59,6 +59,11 @@ def _run(tape, clock):
         for k in sorted(i.outcomes, key=repr):
             if i.outcomes[k][0] == 'value' and tape.draw(3) < 2:
                 i.outcomes[k] = mutable_outcome(tape, run)
+    for i in spec.inputs:
+        for k in sorted(i.outcomes, key=repr):
+            if tape.draw(6) == 5:
+                i.outcomes[k] = ('raise_payload', mutable_outcome(tape, run)[1])     # an error carrying a mutable payload
+                run.probe('exception_with_mutable_payload')
     for st in spec.body:
         if st[0] == 'out' and st[3][0] == 'value' and tape.draw(3) < 2:
             st[3] = mutable_outcome(tape, run)
@@ -129,6 +134,31 @@ def _run(tape, clock):
         # ---- direct reads with mutations in between
         rounds = 2 + tape.draw(4)
         originals = dict((k, V.canon(r.get_data(k))) for k in keys)
+        if keys and tape.draw(4) == 3:
+            # fault: the copy made for one read fails; that read may fail, it must not hand out the stored object
+            import playback.recordings.memory.memory_recording as MR
+            real_copy = MR.pickle_copy
+            state = {'armed': True}
+
+            def failing_copy(value):
+                if state['armed']:
+                    state['armed'] = False
+                    run.fault('copy_fails_on_read')
+                    raise RuntimeError('injected: copy for this read fails')
+                return real_copy(value)
+            k0 = keys[tape.draw(len(keys))]
+            MR.pickle_copy = failing_copy
+            try:
+                try:
+                    leaked = r.get_data(k0)
+                except Exception:
+                    leaked = None
+            finally:
+                MR.pickle_copy = real_copy
+            if leaked is not None and V.mutate_in_place(tape, leaked):
+                if V.canon(r.get_data(k0)) != originals[k0]:
+                    run.violate('reads_are_fresh_copies', 'stored-object-handed-out-when-copy-fails',
+                                'a read whose copy failed handed out the stored object: mutating it changed later reads of %r' % (k0[:60],))
         meta0 = V.canon(r.get_metadata())
         mutated = 0
         for rnd in range(rounds):
